@@ -64,7 +64,7 @@ PROVED = {
  'C12': ('Theorems C12_hide_is_rfc / C12_reveal_is_rfc (the in-place index loops of the Model equal the RFC 2661 4.3 block recursion of Spec/SpecHide.v, by loop invariants over the '
          'forward and the reverse loop), C12_hidden_length, C12_wire_form, C12_unused_padding_inert; MD5 instances. The md5 crate itself is modelled by Base/Md5.v '
          '(RFC 1321 suite proved as Examples) and tied differentially (MD5 channel + a third computation with hashlib).'),
- 'C13': ('Theorems C13_reveal_total (Val always; an Ok result has the announced attribute type and is not hidden), C13_rejects; MD5 instance. No Panic / UB for any octets, secret, random vector.'),
+ 'C13': ('Theorems C13_reveal_total (Val always; an Ok result has the announced attribute type and is not hidden), C13_rejects, C13_reveal_classes (complete four-class characterisation with exact error values and exact accepted octets); MD5 instance. No Panic / UB for any octets, secret, random vector.'),
  'C18': ('Theorems C18_reader_refines_cursor (for every operation sequence, incl. nested sub-readers, whose preconditions hold the list reader returns the observations of the '
          'reference cursor and ends at its position), C18_bytes_too_long, C18_writer_is_vector, C18_overwrite_keeps_length, C18_overwrite_refused. The correspondence drives the REAL '
          'SliceReader / VecWriter with generated operation programs and compares with the model and with an independent Python reference.'),
